@@ -40,6 +40,8 @@ def r1_pairing(idx, r):
     ok = bool(ends) and all(all(s.get(k) == (1, 1) for k in ("copied", "unique", "rotated", "added", "recorded")) for s in ends) and not [e for e in fb.exits if e.kind in ("break", "return")]
     r.require(ok, "convert:copy-unique-rotate-add-record", cv, node=inner, msg=f"every symmetric location receives one independent (deep-copied), uniquely named, rotated assembly that is recorded for the undo: {ends}")
     add = next((c for c in iter_calls(inner) if ev(c) == ["added"]), None)
+    if add is None:
+        raise AnalysisError("convert: the core.add(...) of the copy inside the loop over the symmetric locations was not found")
     st = fb.state_before(add) or {}
     r.require(all(st.get(k, (0, 0))[0] >= 1 for k in ("copied", "unique", "rotated")), "convert:prepared-before-add", cv, node=add, msg="the copy must be made unique and rotated before it enters the core")
     cp = next((n for n in inner.body if isinstance(n, ast.Assign) and ev(n) == ["copied"]), None)
@@ -105,7 +107,33 @@ def r1_pairing(idx, r):
     mk = next((n for n in ae.node.body if isinstance(n, ast.For) and norm(n.iter) == "assembliesOnLowerBoundary"), None)
     txt = [norm(s) for s in mk.body] if mk is not None else []
     v = norm(mk.target) if mk is not None else "a"
-    r.require(txt == [f"{v}.clearCache()", f"a2 = copy.deepcopy({v})", "a2.makeUnique()", "assembliesOnUpperBoundary.append(a2)"], "addEdge:copies", ae, msg=f"edge assemblies are unique deep copies of the 0-degree-line assemblies: {txt}")
+    # every 0-degree-line assembly: its cache dropped, one deep copy made, made unique, recorded - once each on every path, in that order
+    def ev_copy(n, v=v):
+        if isinstance(n, ast.Call) and norm(n) == f"{v}.clearCache()":
+            return ["cleared"]
+        if isinstance(n, ast.Assign) and isinstance(n.value, ast.Call) and dotted(n.value.func) == "copy.deepcopy" and norm(n.value.args[0]) == v:
+            return ["copied:" + norm(n.targets[0])]
+        if isinstance(n, ast.Call) and call_attr(n) == "makeUnique":
+            return ["unique:" + norm(n.func.value)]
+        if isinstance(n, ast.Call) and norm(n.func) == "assembliesOnUpperBoundary.append" and n.args:
+            return ["listed:" + norm(n.args[0])]
+        return []
+    okc = False
+    if mk is not None:
+        flc = Flow(ae.node, ev_copy, body=mk.body).run()
+        ends = flc.iteration_ends()
+        names = {k.split(":", 1)[1] for st_ in ends for k in st_ if k.startswith("copied:")}
+        okc = bool(ends) and len(names) == 1 and all(st_.get("cleared") == (1, 1) and st_.get("copied:" + nm) == (1, 1) and st_.get("unique:" + nm) == (1, 1) and st_.get("listed:" + nm) == (1, 1) for st_ in ends for nm in names)
+        if okc:
+            order = [k for n_ in ast.walk(ast.Module(body=mk.body, type_ignores=[])) for k in ev_copy(n_)]
+            nm = next(iter(names))
+            # (ast.walk is breadth-first: compare line numbers instead)
+            pos = {}
+            for n_ in ast.walk(ast.Module(body=mk.body, type_ignores=[])):
+                for k in ev_copy(n_):
+                    pos.setdefault(k, getattr(n_, "lineno", 0))
+            okc = pos["copied:" + nm] < pos["unique:" + nm] < pos["listed:" + nm]
+    r.require(okc, "addEdge:copies", ae, msg=f"edge assemblies are unique deep copies of the 0-degree-line assemblies (cache dropped, copied, made unique, listed - once each): {txt}")
     lp = next((n for n in ae.node.body if isinstance(n, ast.For) and norm(n.iter) == "assembliesOnUpperBoundary"), None)
 
     def ev2(n):
@@ -401,6 +429,30 @@ def r7_era_reset_only_on_change(idx, r):
         raise AnalysisError(f"only {n} resets of the SINCE_LAST_GEOMETRY_TRANSFORMATION flag found in the geometry converters")
 
 
+def r8_edge_copies_rotated(idx, r):
+    """An edge assembly is the image of a symmetry-line assembly under the core's 120-degree periodicity: the copy placed at the FIRST listed
+    symmetric equivalent (the +120-degree image, R13.1/R08.1) must be rotated by that angle like the copies convert() makes - or its corner
+    data, pin positions, orientation and displacement are those of the un-rotated source and the two operations disagree about that cell."""
+    f = idx.method(GC + ".EdgeAssemblyChanger", "addEdgeAssemblies")
+    cp = [s_ for s_ in iter_stores(f.node) if isinstance(s_.node, ast.Name) and isinstance(s_.value, ast.Call) and dotted(s_.value.func) == "copy.deepcopy"]
+    if len(cp) != 1:
+        raise AnchorMissing("addEdgeAssemblies: the deep copy of a symmetry-line assembly")
+    v = cp[0].attr
+    rot_calls = [c for c in iter_calls(f.node) if call_attr(c) == "rotate" and isinstance(c.func, ast.Attribute) and norm(c.func.value) == v]
+    pick = [x for x in walk_local(f.node) if isinstance(x, ast.Subscript) and norm(x.value) == "locs" and isinstance(x.slice, ast.Constant)]
+    if not pick:
+        raise AnchorMissing("addEdgeAssemblies: choice of the symmetric equivalent (locs[n])")
+    nth = pick[0].slice.value + 1
+    if not rot_calls:
+        r.violate("edge-copy:rotated-into-place", f, f"the copy placed at the {nth}. symmetric equivalent is never rotated: its corner/edge data, pin lattice, orientation and displacement are those of "
+                  "the un-rotated source, while the third-to-full conversion puts a rotated copy into the same cell", node=cp[0].stmt)
+        return
+    E = ExprEval(consts={"math.pi": Poly.atom("pi")}, opaque=False)
+    ang = E.ev(rot_calls[0].args[0])
+    want = Poly.atom("pi") * Poly.const(2 * nth) / Poly.const(3)
+    r.require(ang == want, "edge-copy:rotated-into-place", f, node=rot_calls[0], msg=f"the copy goes to the {nth}. image, i.e. the {120 * nth}-degree rotation of the cell, but is rotated by `{norm(rot_calls[0].args[0])}`")
+
+
 def run(idx, chk):
     chk.explanation = (
         "C13: in ThirdCoreHexToFullCoreChanger.convert every symmetric location gets exactly one deep-copied, uniquely named, rotated and recorded "
@@ -424,3 +476,5 @@ def run(idx, chk):
                  necessary="add-edge / scale / remove-edge restores every block's parameters; every new assembly is its source rotated into place")
     chk.run_rule("R13.7", "addEdgeAssemblies starts a new assignment-flag era only when it actually added assemblies", lambda r: r7_era_reset_only_on_change(idx, r), floor=1,
                  necessary="volume-integrated totals triple on conversion whatever no-op operations preceded it")
+    chk.run_rule("R13.8", "an edge-assembly copy is rotated by the angle of the image it is placed at", lambda r: r8_edge_copies_rotated(idx, r), floor=1,
+                 necessary="every new assembly is its source rotated into place")
